@@ -53,7 +53,16 @@ def run(binary, cases, nproc=8, timeout=900):
     results = [None] * len(chunks)
 
     def work(i):
-        results[i] = _run_chunk(binary, chunks[i], timeout)
+        # a failure of the runner itself (not of a case) must not take the whole check down: the chunk's cases are
+        # reported as unanswered, with the exception text
+        try:
+            results[i] = _run_chunk(binary, chunks[i], timeout)
+        except BaseException as e:  # noqa: BLE001
+            import traceback
+            results[i] = [{"dead": True, "rc": None, "stderr": "lexrun: " + repr(e) + " " + traceback.format_exc()[-400:]}
+                          for _ in chunks[i]]
+        if len(results[i]) < len(chunks[i]):
+            results[i] += [{"dead": True, "rc": None, "stderr": "lexrun: no answer"}] * (len(chunks[i]) - len(results[i]))
     ths = [threading.Thread(target=work, args=(i,)) for i in range(len(chunks))]
     for t in ths:
         t.start()
